@@ -46,6 +46,7 @@ structure Ctx where
   nodes : List Tree          -- all nodes, roots in order, preorder
   target : Option Tree       -- resolved target container
   unsafeRefs : Bool          -- witness replay of F30: do not filter diverging references
+  guardOwn : Bool := false   -- F79 guard (only while the tree is unpatched)
 
 def believedRoot (f : Forest) (id : Nat) : Option Nat := (chainFrom f (f.ids.length + 1) id).getLast?
 
@@ -181,7 +182,8 @@ partial def resolvePath (cur : Option Tree) : List J → List Key
 /-- F79 guard: an existing child of list `dest` is not offered as an insertion into `dest`. -/
 def dropOwn (f : Forest) (cx : Ctx) (dest : Nat) (v : VE) : VE :=
   match v with
-  | .ref id => if !cx.unsafeRefs && (f.metaOf? id).any (fun m => m.parent == some dest) then .atom .none else v
+  | .ref id => if !cx.guardOwn then v else
+      if !cx.unsafeRefs && (f.metaOf? id).any (fun m => m.parent == some dest) then .atom .none else v
   | _ => v
 
 def holdsInferred (cont : Tree) (k : Key) : Bool :=
@@ -291,7 +293,8 @@ def cfgOf (j : J) : Cfg :=
     { reindexOnMutate := (j.getBool? "f03").getD true,
       reindexOnReorder := (j.getBool? "f02").getD true,
       listCloneSealed := (j.getBool? "f17").getD true,
-      detachOnRemove := (j.getBool? "f33").getD true }
+      detachOnRemove := (j.getBool? "f33").getD true,
+      insertCopiesOwn := (j.getBool? "f79").getD true }
 
 def outcomeToJ : Outcome → J
   | .ok => .str "ok"
